@@ -12,7 +12,7 @@ using namespace souffle;
 
 namespace {
 struct Op { int kind; int a, b; };   // 0 union, 1 find, 2 sameSet
-struct Scenario { std::vector<std::vector<Op>> th; };
+struct Scenario { std::vector<std::vector<Op>> th; std::vector<Op> base; };   // base: unions applied sequentially before the threads start
 std::vector<Scenario> scenarios;
 std::string descbuf;
 
@@ -91,6 +91,33 @@ void build() {
                 if (nu < 2) continue;
                 scenarios.push_back({{{alpha[i]}, {alpha[j]}, {alpha[k]}}});
             }
+    // the same alphabet started from non-initial forests (2 threads x 1 operation and 1 + 2 operations)
+    std::vector<std::vector<Op>> bases = {{{0, 0, 1}}, {{0, 1, 0}}};
+#if UF_NODES >= 4
+    bases.push_back({{0, 0, 1}, {0, 2, 3}});
+    bases.push_back({{0, 1, 0}, {0, 3, 2}});
+    bases.push_back({{0, 0, 1}, {0, 1, 2}});
+    bases.push_back({{0, 0, 1}, {0, 2, 3}, {0, 1, 3}});
+#endif
+    std::vector<std::vector<Op>> singles, doubles;
+    for (auto& o : alpha) singles.push_back({o});
+    for (auto& o : alpha)
+        for (auto& p : alpha)
+            if (o.kind != 1 && p.kind != 1) doubles.push_back({o, p});
+    for (auto& b : bases) {
+        for (size_t i = 0; i < singles.size(); i++)
+            for (size_t j = i; j < singles.size(); j++) {
+                if (!has_union(singles[i]) && !has_union(singles[j])) continue;
+                scenarios.push_back({{singles[i], singles[j]}, b});
+            }
+#if UF_NODES < 4
+        for (size_t i = 0; i < singles.size(); i++)
+            for (size_t j = 0; j < doubles.size(); j++) {
+                if (!has_union(singles[i]) && !has_union(doubles[j])) continue;
+                scenarios.push_back({{singles[i], doubles[j]}, b});
+            }
+#endif
+    }
 }
 std::string opname(const Op& o) {
     const char* k[] = {"union", "find", "same"};
@@ -103,6 +130,11 @@ extern "C" int vs_nscenarios() { build(); return (int)scenarios.size(); }
 extern "C" const char* vs_describe(int s) {
     build();
     descbuf.clear();
+    if (!scenarios[s].base.empty()) {
+        descbuf += "base{";
+        for (auto& o : scenarios[s].base) descbuf += std::to_string(o.a) + "+" + std::to_string(o.b) + " ";
+        descbuf += "} ";
+    }
     for (auto& t : scenarios[s].th) {
         descbuf += "[";
         for (auto& o : t) descbuf += opname(o) + " ";
@@ -115,6 +147,7 @@ extern "C" int vs_setup(int s) {
     st = new State();
     st->sc = scenarios[s];
     for (int i = 0; i < UF_NODES; i++) st->ds.makeNode();
+    for (auto& o : st->sc.base) st->ds.unionNodes(o.a, o.b);
     for (int a = 0; a < 8; a++) for (int b = 0; b < 8; b++) st->reach[a][b] = 0;
     vs::set_step_invariant(step_invariant);
     return (int)st->sc.th.size();
@@ -150,7 +183,9 @@ extern "C" int vs_check(std::string& obs) {
     // final partition == closure of requested unions
     int cls[8];
     for (int i = 0; i < UF_NODES; i++) cls[i] = i;
-    for (auto& t : st->sc.th)
+    std::vector<std::vector<Op>> all = st->sc.th;
+    all.push_back(st->sc.base);
+    for (auto& t : all)
         for (auto& o : t)
             if (o.kind == 0) {
                 int ca = cls[o.a], cb = cls[o.b];
